@@ -5,6 +5,7 @@ import io
 import os
 import pathlib
 import re
+import struct
 import tempfile
 import warnings
 
@@ -61,13 +62,35 @@ RULE = ("Round trip: Hypothesis draws the structure of a height map - shape (1xN
         "control - a whole invalid row and column in the interior only; the evidence labels are measured from the mask that was "
         "really written ('whole invalid edge line: top/bottom/left/right', 'invalid edge lines on k side(s), valid samples: 1 / one "
         "row / one column / area', 'valid samples reach only corner ..').  The truncation clauses first judge the intact file as a "
-        "round trip (shape, NaN placement, values) before the harness' model of the file layout is applied.")
+        "round trip (shape, NaN placement, values) before the harness' model of the file layout is applied.  "
+        "Round-8 hardening.  (a) Instrument-like Zygo files: the library's writer stores no camera frame and leaves the header at its defaults, "
+        "every file from the instrument has both; the harness turns a file the writer produced into such a file (uint16 camera frame of 1-9 x 1-9 "
+        "samples x 1-5 buckets inserted behind the 834-byte header - odd byte counts, so a phase block that is not 4-byte aligned, included - the "
+        "acquisition block ac_x/y/width/height/n_buckets/range/n_bytes, cn_x/y, camera size, averaging counts, serial number, software version, "
+        "comment / part name / part serial number patched at the offsets of the documented layout; phase_res 0/1/2, scale factor 1/0.5/0.25 and "
+        "obliquity factor 1/1.03125 changed too when the heights stay in range, the oracle being scaled by the same exactly representable "
+        "factor) and uses it (1) as the file that is read in the zygo / interferogram round trips and in file_sequence (drawn in half of the "
+        "cases, any multi_intensity_action), (2) as the earlier file an Interferogram is loaded from (origin 'loaded' / 'meta-header'; what the "
+        "reader returns from it is compared with the harness' own reading of the bytes), and (3) in zygo_truncation (every cut length; cuts in "
+        "the camera frame lose every sample).  (b) The loaded object may be saved with nothing re-assigned (load -> save).  (c) Generations: "
+        "after the first comparison what the reader returned - array + header dx / wavelength (Zygo), array (Code V), the Interferogram it "
+        "built with the metadata it attached - is handed to the writer of the same pair again, to the same or another path, and read again, "
+        "0-2 further times; each generation is compared with what was handed to its own writer (one quantisation step of its own file); a "
+        "loaded Interferogram may be edited in place / re-labelled before it is saved again.  (d) intensity= (documented optional argument "
+        "of write_zygo_dat and Interferogram: a frame of the map's shape or another) is given in 2 of 5 cases.  (e) Failing requests first "
+        "(1 in 3): a path in a directory that does not exist, a 1-D map, typ='XYZ', multi_intensity_action='median' are tried and caught "
+        "before the valid write / read; nothing is asserted about them.  (f) nnb as True/False, numpy.True_/False_, 1/0.  (g) Value patterns "
+        "'ties' (four distinct values of both signs) and 'outlier' (one dominant sample of the opposite sign, all others 1e-4 of it).")
 ASSUMPTIONS = ["the operating system's file layer returns the bytes that were written",
                "numpy float/int conversion and IEEE-754 float32 rounding (relative 2^-24) are correct",
                "the harness' own parser of the Code V header line (tokens GRD/WVL/SSZ/NDA) and of the 834-byte Zygo "
                "layout (header_size + 4 bytes per sample, file order = rows bottom-to-top) is correct",
                "Code V typ 'FIL' (intensity apodisation, not a height map; the reader does not accept it) is outside the domain",
-               "Zygo intensity blocks are never written by the library's writer and are not exercised",
+               "the library's writer stores no camera frame (its intensity= argument is accepted and ignored); files with a camera frame are made "
+               "by the harness from written files according to the documented 834-byte header layout (offsets as in prysm/io.py:_zygo_metadata_helper) "
+               "with the frame in the machine's byte order as the reader takes it; the frame that is read back is not part of the property and not asserted",
+               "phase_res / scale_factor / obliquity_factor scale the heights as counts * wavelength * scale * obliquity / {4096, 32768, 131072} (MetroPro "
+               "reference guide p. 12-6, the formula quoted in the reader)",
                "float32 maps / float32 wavelengths are carried by the writers in float32 arithmetic: a further 2^-19 relative "
                "term is allowed on top of the quantisation step for them (measured < 2^-22); float16 maps overflow inside "
                "the unit conversions of the clean code and are outside the domain"]
@@ -76,7 +99,7 @@ ZYGO_HEADER = 834
 ZYGO_RES = 32768          # phase_res = 1 (what the writer writes)
 ZYGO_MAX_COUNTS = 2.0e9   # < 2147483640 (the invalid sentinel)
 
-SIGNS = ['pos', 'neg', 'mixed', 'mixed', 'const', 'negconst', 'zero']
+SIGNS = ['pos', 'neg', 'mixed', 'mixed', 'const', 'negconst', 'zero', 'ties', 'outlier']
 # NaN patterns.  'edge-*' / 'margin': whole invalid rows / columns (1-2 of them) at the named side(s) of the map, every other sample valid;
 # 'corner-*': valid samples only in a block at one corner; 'aperture': a disc with a margin inside the frame; 'interior-lines': a whole
 # invalid row and column that are NOT at the edge (control); 'allbut1': a single valid sample anywhere
@@ -153,8 +176,14 @@ def build_map(case, unit):
     shape = tuple(case['shape'])
     ramp = _ramp01(shape, case['seed'])
     s = case['sign']
-    f = {'pos': 0.05 + 0.95 * ramp, 'neg': -(0.05 + 0.95 * ramp), 'mixed': ramp - 0.37,
-         'const': np.full(shape, 0.63), 'negconst': np.full(shape, -0.63), 'zero': np.zeros(shape)}[s]
+    if s == 'ties':         # four distinct values of both signs, many exact ties
+        f = np.round(ramp * 3.0) / 3.0 - 0.37
+    elif s == 'outlier':    # one dominant sample of the opposite sign; every other height is 1e-4 of it or less
+        f = 1e-4 * (ramp - 0.3)
+        f[np.unravel_index(int(U.rng_of(case['seed'], 16).integers(0, f.size)), shape)] = -1.0
+    else:
+        f = {'pos': 0.05 + 0.95 * ramp, 'neg': -(0.05 + 0.95 * ramp), 'mixed': ramp - 0.37,
+             'const': np.full(shape, 0.63), 'negconst': np.full(shape, -0.63), 'zero': np.zeros(shape)}[s]
     z = unit * case['amp'] * f
     m = _nan_mask(shape, case['nan'], case['seed'])
     z = np.where(m, np.nan, z)
@@ -287,7 +316,7 @@ def _labels(case, ctx, amps):
     if dt == 'f4' and case['nan'] != 'none':
         ctx.label('float32 map with NaN')
     _edge_labels(case, ctx)
-    ctx.nt(h != w or case['sign'] in ('neg', 'mixed', 'negconst') or (case['nan'] != 'none' and dt in ('f8', 'f4')))
+    ctx.nt(h != w or case['sign'] in ('neg', 'mixed', 'negconst', 'ties', 'outlier') or (case['nan'] != 'none' and dt in ('f8', 'f4')))
 
 
 def _orientation_hint(got, want, tol):
@@ -398,6 +427,115 @@ def _zygo_tol(want, wavelength_um, prec, lowprec=False):
     return step * (1 + 1e-9) + a * (2.0 ** -22 + (2.0 ** -20 if prec == 32 else 0.0) + (2.0 ** -19 if lowprec else 0.0))
 
 
+# ---- instrument-like Zygo files (camera frame + non-default header contents), built by the harness -------------
+# The library's writer never stores a camera (intensity) frame and leaves most header fields at their defaults; every file written by the
+# instrument carries a frame (ac_width x ac_height x ac_n_buckets uint16 samples between the header and the phase block) and a filled-in header.
+# The harness makes such a file from one the writer produced: it inserts a frame after the 834-byte header and patches header fields at the
+# offsets of the documented layout (MetroPro reference guide, section 12; the same table as prysm/io.py:_zygo_metadata_helper).  Fields that
+# enter the height scaling (phase_res, scale_factor, obliquity_factor) are only changed by exactly representable factors, and the harness'
+# own reading of the bytes (counts * wavelength * scale * obliquity / R(phase_res), rows bottom to top, >= 2147483640 invalid) is the oracle
+# for what a reader must return from it.
+_HDR = {'ac_x': ('>H', 48), 'ac_y': ('>H', 50), 'ac_width': ('>H', 52), 'ac_height': ('>H', 54), 'ac_n_buckets': ('>H', 56), 'ac_range': ('>H', 58),
+        'ac_n_bytes': ('>I', 60), 'cn_x': ('>H', 64), 'cn_y': ('>H', 66), 'cn_width': ('>H', 68), 'cn_height': ('>H', 70), 'cn_n_bytes': ('>I', 72),
+        'comment': ('82s', 80), 'scale_factor': ('>f', 164), 'wavelength': ('>f', 168), 'obliquity_factor': ('>f', 176), 'lateral_resolution': ('>f', 184),
+        'intensity_average_count': ('>H', 190), 'phase_res': ('>H', 218), 'camera_width': ('>H', 234), 'camera_height': ('>H', 236),
+        'sys_serial': ('>H', 242), 'part_name': ('40s', 258), 'phase_avg_count': ('>H', 300), 'part_sn': ('40s', 320), 'swtype': ('>H', 10),
+        'swmaj': ('>H', 42), 'swmin': ('>H', 44), 'header_size': ('>I', 6), 'magic_number': ('>I', 0)}
+_PHASE_RES = {0: 4096, 1: 32768, 2: 131072}
+ZYGO_INVALID = 2147483640
+CAM_TEXTS = ['', 'flat #3, run 2', 'M1 segment 07 / after IBF', 'x' * 40]
+
+
+def _hget(raw, key):
+    fmt, off = _HDR[key]
+    return struct.unpack_from(fmt, raw, off)[0]
+
+
+def _hput(buf, key, val):
+    fmt, off = _HDR[key]
+    if fmt.endswith('s'):
+        width = int(fmt[:-1])
+        val = val.encode('ascii')[:width].ljust(width, b' ')
+    struct.pack_into(fmt, buf, off, val)
+
+
+def _parse_zygo(raw):
+    """the harness' own reading of a Zygo .dat held in `raw`: dict(phase nm float64 with NaN, wavelength um, dx mm, shape, counts) or None
+    when the bytes are not a complete file of the documented layout"""
+    if len(raw) < ZYGO_HEADER or _hget(raw, 'magic_number') != 0x881B036F or _hget(raw, 'header_size') != ZYGO_HEADER:
+        return None
+    w, h = _hget(raw, 'cn_width'), _hget(raw, 'cn_height')
+    nb = _hget(raw, 'ac_n_buckets')
+    ilen = _hget(raw, 'ac_width') * _hget(raw, 'ac_height') * (nb if nb else 1)
+    off = ZYGO_HEADER + 2 * ilen
+    if len(raw) != off + 4 * h * w or _hget(raw, 'phase_res') not in _PHASE_RES:
+        return None
+    counts = np.frombuffer(raw, dtype='>i4', count=h * w, offset=off).astype(np.int64).reshape(h, w)[::-1, :]
+    W, S, O = float(_hget(raw, 'wavelength')), float(_hget(raw, 'scale_factor')), float(_hget(raw, 'obliquity_factor'))
+    phase = np.where(counts >= ZYGO_INVALID, np.nan, counts.astype(np.float64) * (W * S * O / _PHASE_RES[_hget(raw, 'phase_res')] * 1e9))
+    return {'phase': phase, 'wavelength': W * 1e6, 'dx': float(_hget(raw, 'lateral_resolution')) * 1e3, 'shape': (h, w), 'counts': counts,
+            'frame_bytes': 2 * ilen}
+
+
+def _instrument_like(raw, cam, physics=True):
+    """bytes of the same map as an instrument would have stored it: camera frame(s) inserted, acquisition block and descriptive fields of the
+    header filled in, and (physics) the height scaling fields changed.  Returns (bytes, factor by which the heights the file stands for grew)."""
+    buf = bytearray(raw[:ZYGO_HEADER])
+    ch, cw = cam['shape']
+    nb = int(cam['buckets'])
+    r = U.rng_of(cam['seed'], 41)
+    frames = r.integers(0, 4096, size=(nb, ch, cw)).astype(np.uint16)
+    _hput(buf, 'ac_x', int(cam['seed']) % 7)
+    _hput(buf, 'ac_y', int(cam['seed']) % 5)
+    _hput(buf, 'ac_width', cw)
+    _hput(buf, 'ac_height', ch)
+    _hput(buf, 'ac_n_buckets', nb)
+    _hput(buf, 'ac_range', 4095)
+    _hput(buf, 'ac_n_bytes', frames.size * 2)
+    _hput(buf, 'cn_x', int(cam['seed']) % 3)
+    _hput(buf, 'cn_y', int(cam['seed']) % 4)
+    _hput(buf, 'camera_width', max(cw, _hget(raw, 'cn_width')))
+    _hput(buf, 'camera_height', max(ch, _hget(raw, 'cn_height')))
+    _hput(buf, 'intensity_average_count', nb)
+    _hput(buf, 'phase_avg_count', 1 + int(cam['seed']) % 16)
+    _hput(buf, 'sys_serial', 4000 + int(cam['seed']) % 1000)
+    _hput(buf, 'swtype', 1)
+    _hput(buf, 'swmaj', 9)
+    _hput(buf, 'swmin', int(cam['seed']) % 3)
+    text = CAM_TEXTS[int(cam.get('text', 0)) % len(CAM_TEXTS)]
+    if text:
+        _hput(buf, 'comment', text)
+        _hput(buf, 'part_name', text)
+        _hput(buf, 'part_sn', 'SN-%05d' % (int(cam['seed']) % 100000))
+    k = 1.0
+    if physics:
+        res, scale, obl = int(cam.get('phase_res', 1)), float(cam.get('scale', 1.0)), float(cam.get('obliquity', 1.0))
+        _hput(buf, 'phase_res', res)
+        _hput(buf, 'scale_factor', scale)
+        _hput(buf, 'obliquity_factor', obl)
+        k = scale * obl * ZYGO_RES / _PHASE_RES[res]
+    return bytes(buf) + frames.tobytes() + bytes(raw[ZYGO_HEADER:]), k
+
+
+def _cam_fields():
+    """an instrument-like source file (None in half of the cases): camera frame of 1-9 x 1-9 samples (smaller or larger than the map, odd byte
+    counts included), 1-5 buckets, descriptive header text, and the height scaling fields (phase_res 0 / 1 / 2, scale factor 0.5 as the
+    instrument writes it, 1, 0.25, obliquity factor 1 or 1.03125)"""
+    cam = st.fixed_dictionaries({'shape': st.tuples(st.integers(1, 9), st.integers(1, 9)).map(list), 'buckets': st.sampled_from([1, 1, 1, 2, 3, 5]),
+                                 'seed': st.integers(0, 100000), 'text': st.integers(0, len(CAM_TEXTS) - 1), 'phase_res': st.sampled_from([1, 1, 1, 0, 2]),
+                                 'scale': st.sampled_from([1.0, 0.5, 0.5, 0.25]), 'obliquity': st.sampled_from([1.0, 1.0, 1.03125])})
+    return st.one_of(st.none(), cam)
+
+
+def _cam_labels(cam, ctx, prefix):
+    if not cam:
+        ctx.label(prefix + 'as the library writes it (no camera frame)')
+        return
+    ctx.label(prefix + 'instrument-like (camera frame, header filled in)', prefix + 'camera frames: %d' % cam['buckets'])
+    if (cam['shape'][0] * cam['shape'][1] * cam['buckets']) % 2:
+        ctx.label(prefix + 'phase block not 4-byte aligned')
+
+
 class _File:
     """One file of kind 'zygo' (write_zygo_dat / read_zygo_dat), 'ifg' (Interferogram.save_zygo_dat / from_zygo_dat) or
     'codev' (write_codev_gridint / read_codev_gridint): the arguments in their drawn dtype / layout / scalar form, the
@@ -409,6 +547,11 @@ class _File:
         self.prec = case.get('prec', 64)
         self.target = case.get('target', 'str')
         self.result = self.meta = self.obj = self.text = self.at_read = self.path = None
+        self.cam = case.get('cam') if kind != 'codev' else None      # the written file is turned into an instrument-like one before it is read
+        self.spliced = False
+        self.step_k = 1.0        # heights per count of the file that is read, relative to wavelength / 32768 (instrument-like files only)
+        self.generation = 1
+        self.lowp_codev = case.get('dtype', 'f8') == 'f4'
         if kind == 'codev':
             self.z_arg, self.want = typed_map(case, 1.0, float('inf'))
             self.who = 'codev'
@@ -431,9 +574,47 @@ class _File:
         self.snap = _snapshot(*self.args)
 
     # -- write ---------------------------------------------------------------------------------------
+    def _intensity(self):
+        """a camera frame for the documented intensity= argument (None when the case does not ask for one)"""
+        how = self.case.get('intensity')
+        if not how or self.generation > 1:
+            return None
+        h, w = self.want.shape
+        shape = (h, w) if how == 'same-shape' else (h + 2, max(1, w - 1))
+        return U.rng_of(self.case['seed'], 43).integers(0, 4096, size=shape).astype(np.uint16)
+
+    def _failing_requests(self, path, stage):
+        """requests that fail (a file in a directory that does not exist, a map of the wrong dimensionality, an unsupported option value) and
+        are caught by the caller; nothing is asserted about them.  The valid request that follows must behave as if they had not been made."""
+        if not self.case.get('bad_first', False):
+            return
+        from prysm import io as pio
+        from prysm.interferogram import Interferogram
+        missing = os.path.join(os.path.dirname(path), 'no-such-directory', 'x.dat')
+        if stage == 'write' and self.kind == 'codev':
+            tries = [lambda: pio.write_codev_gridint(self.want, missing), lambda: pio.write_codev_gridint(self.want, path + '.bad', typ='XYZ'),
+                     lambda: pio.write_codev_gridint(self.want[0], path + '.bad')]
+        elif stage == 'write':
+            tries = [lambda: pio.write_zygo_dat(missing, self.want, 1.0), lambda: pio.write_zygo_dat(path + '.bad', self.want[0], 1.0)]
+        elif self.kind == 'codev':
+            tries = [lambda: pio.read_codev_gridint(missing)]
+        else:
+            tries = [lambda: pio.read_zygo_dat(missing), lambda: pio.read_zygo_dat(path, multi_intensity_action='median'),
+                     lambda: Interferogram.from_zygo_dat(missing)]
+        for t in tries:
+            try:
+                with warnings.catch_warnings():
+                    warnings.simplefilter('ignore')
+                    t()
+            except Exception:  # noqa - the failing request itself is not judged
+                pass
+
     def _zygo_writer(self):
         from prysm.io import write_zygo_dat
         kw = {} if self.omit_wvl else {'wavelength': self.wvl_arg}
+        frame = self._intensity()
+        if frame is not None:
+            kw['intensity'] = frame
         if self.omit_dx:      # dx is a required argument of the function: 'omit' stands for the all-keyword form
             return lambda f: write_zygo_dat(file=f, phase=self.z_arg, dx=self.dx_arg, **kw)
         return lambda f: write_zygo_dat(f, self.z_arg, self.dx_arg, **kw)
@@ -466,7 +647,28 @@ class _File:
         z, _ = build_map(sub, _zygo_step(w))
         p = os.path.join(d, 'stale.dat')
         self.ctx.call(write_zygo_dat, p, z, dx, wavelength=w)
+        self.stale_oracle = None
+        cam = (self.case.get('stale') or {}).get('cam')
+        if cam:
+            with open(p, 'rb') as fh:
+                raw = fh.read()
+            if _parse_zygo(raw) is not None and _parse_zygo(raw)['shape'] == tuple(shape):
+                blob, _ = _instrument_like(raw, cam)
+                with open(p, 'wb') as fh:
+                    fh.write(blob)
+                self.stale_oracle = _parse_zygo(blob)
         return p
+
+    def _judge_instrument_read(self, got, dx, wvl, orc, who):
+        """what a reader returned from an instrument-like file against the harness' own reading of its bytes (values: relative 1e-6, which
+        covers a float32 configuration; no quantisation is involved)"""
+        if orc is None:
+            return
+        want = orc['phase']
+        tol = np.where(np.isnan(want), 0.0, np.abs(want)) * 1e-6 + 1e-300
+        compare_map(got, want, tol, who + ':instrument-like-file', self.ctx)
+        self.ctx.require(abs(float(dx) - orc['dx']) <= 1e-6 * orc['dx'] and wvl is not None and abs(float(wvl) - orc['wavelength']) <= 1e-6 * orc['wavelength'],
+                         who + ':instrument-like-file:dx-wavelength', 'file holds dx %r mm, wavelength %r um; read %r mm, %r um' % (orc['dx'], orc['wavelength'], dx, wvl))
 
     def make_interferogram(self, d=None):
         """the Interferogram that will be saved.  origin 'fresh': the constructor; 'meta-dict' / 'meta-header': the constructor with an
@@ -484,16 +686,21 @@ class _File:
             w, dx, _, seed = self._stale()
             kw['meta'] = {('wavelength' if seed % 2 else 'Wavelength'): w * 1e-6, 'lateral_resolution': dx * 1e-3}
         elif origin == 'meta-header':
-            kw['meta'] = dict(ctx.call(read_zygo_dat, self._write_stale(d))['meta'])
+            res = ctx.call(read_zygo_dat, self._write_stale(d))
+            self._judge_instrument_read(res['phase'], float(res['meta']['lateral_resolution']) * 1e3, float(res['meta']['wavelength']) * 1e6, self.stale_oracle, 'zygo')
+            kw['meta'] = dict(res['meta'])
         elif origin == 'meta-only' and not self.omit_wvl:
             kw = {'wavelength': None, 'meta': {('wavelength' if self.case['seed'] % 2 else 'Wavelength'): self.wvl * 1e-6}}
         elif origin == 'loaded':
             assign = [a for a in (self.case.get('assign') or ['data', 'dx', 'wavelength']) if a in ('data', 'dx', 'wavelength')]
+            if self.case.get('keep_all', False):
+                assign = []          # load -> save: the object is saved as it was loaded
             keep = [a for a in ('data', 'dx', 'wavelength') if a not in assign]
             # the new heights either replace the array (obj.data = z) or are written into the loaded array (obj.data[...] = z; the
             # earlier file then has this map's shape)
             inplace = self.case.get('data_how', 'rebind') == 'inplace' and 'data' in assign
             obj = ctx.call(Interferogram.from_zygo_dat, self._write_stale(d, keep + ['data'] if inplace else keep))
+            self._judge_instrument_read(obj.data, obj.dx, obj.wavelength, self.stale_oracle, 'interferogram')
             inplace = inplace and isinstance(obj.data, np.ndarray) and obj.data.shape == self.want.shape and obj.data.flags.writeable
             for a in assign:
                 if a == 'data' and inplace:
@@ -524,6 +731,9 @@ class _File:
             self.args = [self.z_arg, self.dx_arg, self.wvl_arg]
             self.snap = _snapshot(*self.args)
             return obj
+        frame = self._intensity()
+        if frame is not None:
+            kw['intensity'] = frame
         if self.omit_dx:
             obj = ctx.call(Interferogram, self.z_arg, **kw)
         else:
@@ -543,6 +753,7 @@ class _File:
 
     def write(self, path, obj=None):
         ctx, case = self.ctx, self.case
+        self._failing_requests(path, 'write')
         if self.kind == 'zygo':
             _write_zygo(ctx, self._zygo_writer(), self.target, path)
         elif self.kind == 'ifg':
@@ -555,7 +766,8 @@ class _File:
                             o.dx, self.dx, o.wavelength, self.wvl, 'unchanged' if same else 'changed'))
         else:
             from prysm.io import write_codev_gridint
-            kw = {'typ': case['typ'], 'nnb': case['nnb']}
+            nnb = {'bool': bool, 'np': np.bool_, 'int': int}[case.get('nnbform', 'bool')](case['nnb'])
+            kw = {'typ': case['typ'], 'nnb': nnb}
             if case.get('title') is not None:
                 kw['comment'] = case['title']
             if case.get('kwform', False):
@@ -566,6 +778,63 @@ class _File:
                 self.text = fh.read()
         _require_unchanged(ctx, {'zygo': 'write_zygo_dat', 'ifg': 'save_zygo_dat', 'codev': 'write_codev_gridint'}[self.kind],
                            self.argnames, self.args, self.snap)
+        self.splice(path)
+
+    def splice(self, path):
+        """turn the Zygo file that was just written into an instrument-like one (case['cam']): camera frame inserted, header filled in.  The
+        height scaling fields of the header are changed too when the heights then stay inside the format's range for a later re-save (the
+        oracle is scaled by the same exactly representable factor).  A file that is not laid out as header + 4 bytes per sample is
+        left as the writer made it (the round trip judges it)."""
+        if not self.cam or self.kind == 'codev':
+            return
+        with open(path, 'rb') as fh:
+            raw = fh.read()
+        plain = _parse_zygo(raw)
+        if plain is None or plain['shape'] != self.want.shape or plain['frame_bytes']:
+            return
+        valid = np.abs(plain['counts'][plain['counts'] < ZYGO_INVALID])
+        physics = (float(valid.max()) if valid.size else 0.0) * 16.5 <= 1e9
+        blob, k = _instrument_like(raw, self.cam, physics)
+        with open(path, 'wb') as fh:
+            fh.write(blob)
+        self.spliced = True
+        if k != 1.0:
+            # the same counts now stand for heights k times as large (k is a product of exactly representable factors): the oracle is still the
+            # map that was handed to the writer, and one count is k times as large
+            self.want = self.want * k
+            self.step_k = k
+            self.ctx.label('instrument-like file with other height scaling fields (factor %g)' % k)
+
+    def next_generation(self, edits=()):
+        """what the reader returned is handed to the writer of the same pair again (file -> object -> file): the array / dx / wavelength the
+        reader gave (Zygo, Code V), or the Interferogram object it built, with the metadata it attached.  The oracle is what that object holds."""
+        self.generation += 1
+        self.cam, self.spliced, self.step_k = None, False, 1.0
+        r = self.result
+        self.ctx.require(isinstance(r, np.ndarray) and r.ndim == 2, self.who + ':return', 'the reader returned %r as the map' % type(r))
+        if self.kind == 'codev':
+            self.z_arg, self.want = r, np.array(r, dtype=np.float64)
+            self.lowp_codev = r.dtype == np.float32
+            self.args, self.argnames = [self.z_arg], ['map']
+        else:
+            if self.kind == 'zygo':
+                self.dx_arg = float(self.meta['lateral_resolution']) * 1e3
+                self.wvl_arg = float(self.meta['wavelength']) * 1e6
+                self.z_arg = r
+            else:
+                self.obj = self.meta          # the Interferogram that from_zygo_dat built
+                self.origin = 'reloaded'
+                self.z_arg, self.dx_arg, self.wvl_arg = self.obj.data, self.obj.dx, self.obj.wavelength
+                self.ctx.require(self.wvl_arg is not None, self.who + ':wavelength', 'loaded wavelength is None')
+            self.want, self.dx, self.wvl = np.array(self.z_arg, dtype=np.float64), float(self.dx_arg), float(self.wvl_arg)
+            self.omit_dx = self.omit_wvl = False
+            self.lowprec = np.asarray(self.z_arg).dtype == np.float32
+            self.args = [self.z_arg, self.dx_arg, self.wvl_arg]
+        self.snap = _snapshot(*self.args)
+        done = []
+        if self.kind == 'ifg' and edits:
+            done = self.change_saved_object(edits)
+        return done
 
     def change_saved_object(self, changes):
         """the Interferogram that has just been saved is changed the way users change it - its data array edited in place through
@@ -601,6 +870,7 @@ class _File:
             done.append(ch)
         self.z_arg, self.dx_arg, self.wvl_arg = o.data, o.dx, o.wavelength
         self.want, self.dx, self.wvl = np.array(o.data, dtype=np.float64), float(o.dx), float(o.wavelength)
+        self.step_k = 1.0
         self.args = [self.z_arg, self.dx_arg, self.wvl_arg]
         self.snap = _snapshot(*self.args)
         return done
@@ -611,6 +881,7 @@ class _File:
         parg = pathlib.Path(path) if self.target == 'pathlib' else path
         # the writer stores no intensity frames: every documented way of combining them reads the same phase
         mia = {} if self.case.get('mia') is None else {'multi_intensity_action': self.case['mia']}
+        self._failing_requests(path, 'read')
         with U.precision(self.prec):
             if self.kind == 'zygo':
                 from prysm.io import read_zygo_dat
@@ -650,10 +921,12 @@ class _File:
                         'header line of the written file is not a usable GRD header: %r' % self.text.split('\n')[1:2])
             step = 1000.0 * hdr['wvl'] / abs(hdr['ssz'])   # nm per count, as written
             a = np.where(np.isnan(want), 0.0, np.abs(want))
-            lowp = self.case.get('dtype', 'f8') == 'f4'
+            lowp = self.lowp_codev
             tol = step * (1 + 1e-9) + a * (1e-12 + (2.0 ** -20 if self.prec == 32 else 0.0) + (2.0 ** -19 if lowp else 0.0))
             return compare_map(self.result, want, tol, who, ctx, who_value=whov)
-        worst = compare_map(self.result, want, _zygo_tol(want, self.wvl, self.prec, self.lowprec), who, ctx)
+        # an Interferogram that carries the header of a file it (or its metadata) came from: name that history in the bucket
+        from_file = ':object-' + self.origin if self.kind == 'ifg' and self.origin in ('loaded', 'reloaded', 'meta-header') else ''
+        worst = compare_map(self.result, want, _zygo_tol(want, self.wvl * self.step_k, self.prec, self.lowprec), who + from_file, ctx)
         dx, wvl = self.dx, self.wvl
         if self.kind == 'zygo':
             got_dx = float(self.meta['lateral_resolution']) * 1e3
@@ -668,7 +941,10 @@ class _File:
         how = '' if not hist else '; the Interferogram was %s' % {
             'meta-dict': 'constructed with an explicit wavelength and a metadata dict', 'meta-header': 'constructed with an explicit wavelength and the header of another file as meta',
             'meta-only': 'constructed with wavelength=None and the wavelength in meta',
-            'loaded': 'loaded from another file and had %s re-assigned through its attributes' % '+'.join(self.case.get('assign') or FIELDS)}[self.origin]
+            'reloaded': 'the one returned by from_zygo_dat for the previous generation of the file',
+            'loaded': 'loaded from another file%s and had %s re-assigned through its attributes' % (
+                ' (instrument-like: camera frame, header filled in)' if (self.case.get('stale') or {}).get('cam') else '',
+                'nothing' if self.case.get('keep_all', False) else '+'.join(self.case.get('assign') or FIELDS))}[self.origin]
         ctx.require(abs(got_dx - dx) <= 1e-6 * dx, who + ':dx' + zero + hist, 'wrote dx %r mm (given as %s), read back %r mm%s' % (
             dx, self.case.get('dxform', 'float'), got_dx, how))
         ctx.require(abs(got_w - wvl) <= 1e-6 * wvl, who + ':wavelength' + hist, 'wrote wavelength %r um (given as %s), read back %r um%s' % (
@@ -705,7 +981,13 @@ def _zygo_fields():
     return {'dx': dx, 'wavelength': st.one_of(st.just(0.6328), U.nice_float(0.2, 15.0), U.nice_float(0.05, 200.0)),
             'dxform': st.sampled_from(SCALAR_FORMS), 'wvlform': st.sampled_from(SCALAR_FORMS),
             'target': st.sampled_from(['str', 'pathlib', 'fileobj', 'buffer']), 'prec': st.sampled_from([64, 64, 32]),
-            'mia': st.sampled_from([None, None, 'first', 'avg', 'last', 'AVG'])}
+            'mia': st.sampled_from([None, None, 'first', 'avg', 'last', 'AVG']),
+            # the written file turned into an instrument-like one before it is read; number of further file -> object -> file generations
+            'cam': _cam_fields(), 'gens': st.sampled_from(GENS),
+            # intensity=: documented optional argument of write_zygo_dat / Interferogram (camera frame of the map's shape or another one)
+            'intensity': st.sampled_from([None, None, None, 'same-shape', 'other-shape']),
+            # requests that fail and are caught by the caller before the valid write / read
+            'bad_first': st.sampled_from([False, False, True])}
 
 
 def strat_zygo(tier):
@@ -715,16 +997,19 @@ def strat_zygo(tier):
 
 
 ORIGINS = ['fresh', 'fresh', 'meta-dict', 'meta-header', 'meta-only', 'loaded', 'loaded', 'loaded']
+GENS = [0, 0, 0, 1, 1, 2]
 FIELDS = ['data', 'dx', 'wavelength']
 
 
 def _origin_fields():
     """where the Interferogram that is saved comes from, and what its earlier life / its metadata say (see _File.make_interferogram)"""
     stale = st.fixed_dictionaries({'wavelength': st.sampled_from([0.6328, 1.55, 0.532, 10.6, 0.1, 3.39]), 'dx': st.sampled_from([0.0, 0.25, 3.0, 1e-3, 40.0]),
-                                   'shape': st.tuples(st.integers(1, 6), st.integers(1, 6)).map(list), 'seed': st.integers(0, 1000)})
+                                   'shape': st.tuples(st.integers(1, 6), st.integers(1, 6)).map(list), 'seed': st.integers(0, 1000),
+                                   'cam': _cam_fields()})    # the earlier file is instrument-like (camera frame, header filled in) in half of the cases
     # a non-empty ordered subset of the three fields the round trip must preserve: each one alone, pairs, all three, in every order
     assign = st.permutations(FIELDS).flatmap(lambda p: st.integers(1, 3).map(lambda k: list(p[:k])))
-    return {'origin': st.sampled_from(ORIGINS), 'stale': stale, 'assign': assign, 'data_how': st.sampled_from(['rebind', 'rebind', 'inplace'])}
+    return {'origin': st.sampled_from(ORIGINS), 'stale': stale, 'assign': assign, 'data_how': st.sampled_from(['rebind', 'rebind', 'inplace']),
+            'keep_all': st.sampled_from([False, False, False, True])}      # load -> save with nothing re-assigned
 
 
 def strat_ifg(tier):
@@ -732,13 +1017,18 @@ def strat_ifg(tier):
     d.update(_zygo_fields())
     d.update(_origin_fields())
     d['resave'] = st.one_of(st.none(), st.none(), st.lists(st.sampled_from(RESAVE), min_size=1, max_size=3, unique=True))
+    d['gen_edit'] = st.one_of(st.none(), st.none(), st.lists(st.sampled_from(RESAVE), min_size=1, max_size=2, unique=True))
     return st.fixed_dictionaries(d)
 
 
 def _origin_labels(case, ctx):
     o = case.get('origin', 'fresh')
     ctx.label('origin:' + o)
-    if o == 'loaded':
+    if o in ('loaded', 'meta-header'):
+        _cam_labels((case.get('stale') or {}).get('cam'), ctx, 'earlier file: ')
+    if o == 'loaded' and case.get('keep_all', False):
+        ctx.label('re-assigned after loading: nothing (load -> save)')
+    elif o == 'loaded':
         a = case.get('assign') or FIELDS
         ctx.label('re-assigned after loading: ' + '+'.join(sorted(a)), 're-assigned first: ' + a[0])
         if 'data' in a:
@@ -756,8 +1046,11 @@ def _roundtrip(case, kind, ctx, ext, tag=''):
         f.write(p)
         f.read(p)
         if not resave:
-            return f.compare(tag)
-        f.compare(tag)
+            worst = f.compare(tag + (':instrument-like-file' if f.spliced else ''))
+            if case.get('gens'):
+                worst = _generations(f, case, ctx, d, p, ext, tag)
+            return worst
+        f.compare(tag + (':instrument-like-file' if f.spliced else ''))
         # the same object, changed in place / through its attributes after it was saved, and saved again (to the same or another path)
         for ch in f.change_saved_object(resave):
             ctx.label('changed after the first save: ' + ch)
@@ -767,24 +1060,44 @@ def _roundtrip(case, kind, ctx, ext, tag=''):
         return f.compare(tag + ':second-save')
 
 
+def _generations(f, case, ctx, d, p, ext, tag):
+    """file -> object -> file -> object ...: what the reader returned (array + header values, or the Interferogram it built) is written again
+    with the writer of the same pair, to the same or another path, and read again; each generation is compared with what was handed to its
+    own writer.  For Interferograms the loaded object may be edited in place / re-labelled before it is saved (case['gen_edit'])."""
+    worst = 0.0
+    for g in range(int(case.get('gens', 0) or 0)):
+        edits = list(case.get('gen_edit') or []) if g == 0 else []
+        for ch in f.next_generation(edits):
+            ctx.label('loaded object changed before it was saved again: ' + ch)
+        pg = p if (case['seed'] + g) % 2 else os.path.join(d, 'g%d%s' % (g, ext))
+        f.write(pg, obj=f.obj)
+        f.read(pg)
+        worst = f.compare('%s:generation-%d' % (tag, f.generation))
+    return worst
+
+
 def check_zygo(case, ctx):
     """write_zygo_dat -> read_zygo_dat: same shape/orientation, NaNs in place, values within a count, dx, wavelength."""
     _labels(case, ctx, ZYGO_AMPS)
-    ctx.label('target:' + case['target'], 'prec%d' % case['prec'])
+    ctx.label('target:' + case['target'], 'prec%d' % case['prec'], 'generations:%d' % (1 + int(case.get('gens', 0) or 0)))
+    _cam_labels(case.get('cam'), ctx, 'file that is read: ')
+    ctx.label('intensity= given: %s' % case.get('intensity'), 'after failing requests' if case.get('bad_first', False) else 'no failing requests')
     _roundtrip(case, 'zygo', ctx, '.dat')
 
 
 def check_interferogram(case, ctx):
     """Interferogram.save_zygo_dat -> Interferogram.from_zygo_dat: data, dx and wavelength survive the unit conversions."""
     _labels(case, ctx, ZYGO_AMPS)
-    ctx.label('target:' + case['target'], 'prec%d' % case['prec'])
+    ctx.label('target:' + case['target'], 'prec%d' % case['prec'], 'generations:%d' % (1 + (0 if case.get('resave') else int(case.get('gens', 0) or 0))))
+    _cam_labels(case.get('cam'), ctx, 'file that is read: ')
+    ctx.label('intensity= given: %s' % case.get('intensity'), 'after failing requests' if case.get('bad_first', False) else 'no failing requests')
     _origin_labels(case, ctx)
     try:
         _roundtrip(case, 'ifg', ctx, '.dat')
     except Violation as v:
         # name the root cause: if the file layer alone fails on the same map it is the file layer's defect
         if not v.bucket.startswith('interferogram:save-changed-object'):
-            _roundtrip(dict(case, dxform='float' if case.get('dxform') == 'omit' else case.get('dxform', 'float')), 'zygo', ctx, '.dat')
+            _roundtrip(dict(case, dxform='float' if case.get('dxform') == 'omit' else case.get('dxform', 'float'), gen_edit=None), 'zygo', ctx, '.dat')
         raise v
 
 
@@ -815,7 +1128,9 @@ def _codev_header(text):
 
 def _codev_fields():
     return {'typ': st.sampled_from(['SUR', 'WFR', 'sur', 'wfr']), 'nnb': st.booleans(), 'title': st.sampled_from(TITLES + [None]),
-            'kwform': st.booleans(), 'target': st.sampled_from(['str', 'pathlib', 'fileobj', 'buffer']), 'prec': st.sampled_from([64, 64, 32])}
+            'kwform': st.booleans(), 'target': st.sampled_from(['str', 'pathlib', 'fileobj', 'buffer']), 'prec': st.sampled_from([64, 64, 32]),
+            'gens': st.sampled_from(GENS), 'bad_first': st.sampled_from([False, False, True]),
+            'nnbform': st.sampled_from(['bool', 'bool', 'np', 'int'])}      # the flag as True / False, numpy.True_ / numpy.False_, 1 / 0
 
 
 def strat_codev(tier):
@@ -829,7 +1144,8 @@ def check_codev(case, ctx):
     """write_codev_gridint -> read_codev_gridint: same shape/orientation, NaNs in place, values within one count of the header's SSZ."""
     _labels(case, ctx, CODEV_AMPS)
     ctx.label('target:' + case['target'], 'prec%d' % case['prec'], 'typ:' + case['typ'].upper(), 'nnb' if case['nnb'] else 'bilinear',
-              'title:default' if case.get('title', '') is None else 'title:given')
+              'title:default' if case.get('title', '') is None else 'title:given', 'nnb given as:' + case.get('nnbform', 'bool'),
+              'after failing requests' if case.get('bad_first', False) else 'no failing requests', 'generations:%d' % (1 + int(case.get('gens', 0) or 0)))
     _roundtrip(case, 'codev', ctx, '.int')
 
 
@@ -957,8 +1273,11 @@ def _judge_cut(ctx, who, cut, total, outcome, arr, wl, shape, missing, detail):
 def strat_zygo_trunc(tier):
     nmax = {'quick': 9, 'thorough': 16}[tier]
     d = _map_fields(nmax, ZYGO_AMPS, NANS_SOME_VALID)
+    # cam: the written file is turned into an instrument-like one (small camera frame between header and phase block) before it is cut
+    cam = st.fixed_dictionaries({'shape': st.tuples(st.integers(1, 4), st.integers(1, 4)).map(list), 'buckets': st.sampled_from([1, 1, 2]),
+                                 'seed': st.integers(0, 100000), 'text': st.integers(0, len(CAM_TEXTS) - 1)})
     d.update({'wavelength': st.sampled_from([0.6328, 1.55]), 'reader': st.sampled_from(['io', 'io', 'interferogram']),
-              'writer': st.sampled_from(['io', 'interferogram'])})
+              'writer': st.sampled_from(['io', 'interferogram']), 'cam': st.one_of(st.none(), st.none(), cam)})
     return st.fixed_dictionaries(d)
 
 
@@ -995,15 +1314,26 @@ def check_zygo_trunc(case, ctx):
         if total != ZYGO_HEADER + 4 * h * w:
             # not a violation of the property: the harness' model of which samples a cut removes no longer applies (exit 2)
             raise RuntimeError('harness layout model: file of a %dx%d map is %d bytes, expected 834 + 4 per sample' % (h, w, total))
+        fb = 0      # bytes of the camera frame(s) between header and phase block
+        if case.get('cam'):
+            raw, _ = _instrument_like(raw, case['cam'], physics=False)
+            fb = len(raw) - total
+            total = len(raw)
+            with open(p, 'wb') as fh:
+                fh.write(raw)
+            first = np.array(ctx.call(reader, p), copy=True)
+            compare_map(first, want, _zygo_tol(want, wvl, 64, case.get('dtype', 'f8') == 'f4'),
+                        ('zygo' if case['reader'] == 'io' else 'interferogram') + ':intact-file:instrument-like-file', ctx)
+        _cam_labels(case.get('cam'), ctx, 'file that is cut: ')
         t = os.path.join(d, 'cut.dat')
         n_rej = n_nan = 0
-        # file order: rows bottom-to-top, row-major; sample k occupies bytes 834+4k .. 834+4k+3
+        # file order: rows bottom-to-top, row-major; sample k occupies bytes 834+fb+4k .. 834+fb+4k+3
         korder = np.arange(h * w).reshape(h, w)[::-1, :]     # korder[r, c] = file index of array sample (r, c)
         with open(t, 'wb') as fh:
             fh.write(raw)
         for cut in range(total - 1, -1, -1):     # every cut length; shrinking one scratch file is the cheapest way
             os.truncate(t, cut)
-            n_complete = max(0, (cut - ZYGO_HEADER) // 4)
+            n_complete = max(0, (cut - ZYGO_HEADER - fb) // 4)
             missing = korder >= n_complete
             outcome, out, wl = _read_cut(reader, t)
             if outcome == 'raise':
@@ -1011,12 +1341,14 @@ def check_zygo_trunc(case, ctx):
                 continue
             n_nan += 1
             _judge_cut(ctx, 'read_zygo_dat' if case['reader'] == 'io' else 'from_zygo_dat', cut, total, outcome, out, wl, (h, w), missing,
-                       'header' if cut < ZYGO_HEADER else '%d complete samples + %d bytes' % (n_complete, (cut - ZYGO_HEADER) % 4))
+                       'header' if cut < ZYGO_HEADER else 'camera frame' if cut < ZYGO_HEADER + fb else
+                       '%d complete samples + %d bytes' % (n_complete, (cut - ZYGO_HEADER - fb) % 4))
         # history: the intact file read after all the damaged ones gives what it gave before them
         U.check_equal(np.asarray(ctx.call(reader, p)), first, ('read_zygo_dat' if case['reader'] == 'io' else 'from_zygo_dat') + ':after-truncated-reads',
                       'intact file read again after %d reads of truncated copies' % total)
     ctx.tally('cut_points', total)
-    ctx.tally('cut_points_in_data_block', total - ZYGO_HEADER)
+    ctx.tally('cut_points_in_data_block', total - ZYGO_HEADER - fb)
+    ctx.tally('cut_points_in_camera_frame', fb)
     ctx.tally('cuts_rejected', n_rej)
     ctx.tally('cuts_read_nan_and_warning', n_nan)
 
